@@ -280,6 +280,8 @@ class PB(ExprBuilder):
             if m in REDUCERS and not args:
                 kw = _kws(e, self, env)
                 return self._reduce(m, recv, kw)
+            if m == "to_numpy" and not args and not e.keywords:
+                return ('call', 'attr:values', (recv,))        # Series / Index .to_numpy() without arguments is .values
             if m == "astype" and args:
                 return self._with_dtype(recv, args[0])
             if m == "copy" and not args:
